@@ -909,6 +909,13 @@ impl HybSim {
         version
     }
 
+    pub fn raw_insert_c(&mut self, key: u64, len: usize, compressible: bool) -> u64 {
+        let (version, value) = self.new_value(key, len, compressible);
+        let e = self.cache().insert(key, value);
+        drop(e);
+        version
+    }
+
     pub fn raw_remove(&mut self, key: u64) {
         self.cache().remove(&key);
     }
